@@ -4,6 +4,7 @@ import (
 	"errors"
 	"fmt"
 	"io"
+	"os"
 	"sort"
 	"strconv"
 	"strings"
@@ -21,14 +22,22 @@ type cutReader struct {
 	fault       int // -1 = none
 	hit         bool
 	reads       int
+	faultErr    error // nil = errInjected
 }
 
 var errInjected = errors.New("injected I/O failure")
+
+// faultErrors: the values a failing source may report; none of them is io.EOF (what gzip readers, HTTP bodies, pipes
+// and closed files return when they break in the middle)
+var faultErrors = []error{errInjected, io.ErrUnexpectedEOF, io.ErrClosedPipe, io.ErrNoProgress, os.ErrClosed}
 
 func (f *cutReader) Read(p []byte) (int, error) {
 	f.reads++
 	if f.fault >= 0 && f.pos >= f.fault {
 		f.hit = true
+		if f.faultErr != nil {
+			return 0, f.faultErr
+		}
 		return 0, errInjected
 	}
 	if len(p) == 0 {
@@ -300,6 +309,25 @@ func judgeFrag(b []byte, cuts string, eofData bool, m *Model, v *Verdict) {
 	op := fmt.Sprintf("stream.read %s cuts=%s eofdata=%d", hx(b), cuts, ed)
 	if got != mem {
 		v.Oracle = append(v.Oracle, "fragmented read differs from in-memory read: "+short(got)+" vs "+short(mem)+" :: "+short(op))
+	}
+	// the same with a logger configured (smf.Log): logging must not read on its own account
+	frl := &cutReader{data: b, cuts: parseCuts(cuts), eofWithData: eofData, fault: -1}
+	gotl := mem
+	if v.Counts["configurations"]%3 == 0 {
+		// (every third configuration: the offsets of one file are walked with step 1, so each region is met)
+	} else if p := try(func() {
+		sm, err := smf.ReadFrom(readerVariant(frl, len(b)+len(cuts)), smf.Log(smf.LogTo(io.Discard)))
+		if err != nil {
+			gotl = "error"
+		} else {
+			gotl = "ok:" + showSMF(sm)
+		}
+	}); p != "" {
+		gotl = "panic"
+	}
+	v.Counts["configurations-with-logger"]++
+	if gotl != mem {
+		v.Oracle = append(v.Oracle, "with smf.Log set the fragmented read differs from the in-memory read: "+short(gotl)+" vs "+short(mem)+" :: "+short(op))
 	}
 	mf := fields(m.Ask(op))
 	if mf["r"] != got || mf["mem"] != mem {
